@@ -86,7 +86,7 @@ P_C19_Proxy(row, o) ==
   /\ permitted  => o.err = "none" /\ (row.shape = "valerr" => o.val = "token")
   /\ ~permitted => o.err = "perm" /\ (row.shape = "valerr" => o.val = "zero")
 
-\* token given by header or by query parameter (the statement does not say which wins when both are given)
+\* token given by header or by query parameter (the statement does not say which wins when both are given and well-formed)
 HdrGiven(row)   == HeaderToken(row.hdr).present
 QueryGiven(row) == row.query
 OutcomeFor(present, prefix, v, o) ==
@@ -99,6 +99,8 @@ P_C19_Handler(row, o) ==
   IF ~HdrGiven(row) /\ ~QueryGiven(row) THEN OutcomeFor(FALSE, FALSE, [ok |-> FALSE, perms |-> {}], o)
   ELSE IF HdrGiven(row) /\ ~QueryGiven(row) THEN OutcomeFor(TRUE, h.prefix, Verify(row, h.tok), o)
   ELSE IF ~HdrGiven(row) /\ QueryGiven(row) THEN OutcomeFor(TRUE, TRUE, row.vq, o)
+  \* both given: a malformed header token is a malformed token (401); with a well-formed header either token may be the one used
+  ELSE IF ~h.prefix THEN OutcomeFor(TRUE, FALSE, Verify(row, h.tok), o)
   ELSE \/ OutcomeFor(TRUE, h.prefix, Verify(row, h.tok), o)
        \/ OutcomeFor(TRUE, TRUE, row.vq, o)
 
